@@ -74,6 +74,14 @@ def main():
             res = run_one(os.path.join(base, name, "patch.diff"), None, props, a.runs, tier=a.tier, budget=a.budget)
             caught = [p for p, r in res.items() if r["rc"] == 1]
             summary[name] = {"caught_by": caught, "results": {p: (r["rc"], r["wall"]) for p, r in res.items()}}
+            meta["final_check"] = {"caught_by": caught, "rc": {p: r["rc"] for p, r in res.items()},
+                                   "classes": {p: [c.split(" (minimised")[0].replace("violation class: ", "") for c in r["classes"]][:3]
+                                               for p, r in res.items()},
+                                   "verif_commit": subprocess.run(["git", "-C", VERIF, "rev-parse", "--short", "HEAD"],
+                                                                  capture_output=True, text=True).stdout.strip(),
+                                   "repo_commit": subprocess.run(["git", "-C", "/repo", "rev-parse", "--short", "HEAD"],
+                                                                 capture_output=True, text=True).stdout.strip()}
+            json.dump(meta, open(meta_p, "w"), indent=1)
             print(name, "caught by", caught, {p: r["rc"] for p, r in res.items()}, flush=True)
         missed = [n for n, s in summary.items() if not s["caught_by"]]
         print("MISSED:", missed)
